@@ -111,7 +111,7 @@ def run(run):
         if m < 0.08:
             # very close to the face centre (apex of all ten triangles): the radial part of the inverse runs through the small-angle
             # branch of safe_acos here; the probe is small compared with its distance from the centre
-            rho = 10 ** rng.uniform(-7.3, -3.5); g = rng.uniform(-math.pi, math.pi)
+            rho = 10 ** rng.uniform(-10.0, -3.5); g = rng.uniform(-math.pi, math.pi)
             size = rho * rng.uniform(1 / 64, 1 / 6)
         elif m < 0.35:
             rho = D_EDGE * 1.3 * math.sqrt(rng.random()); g = rng.uniform(-math.pi, math.pi)
@@ -229,7 +229,7 @@ def run(run):
         if rel > TOL:
             run.violation(f"area distortion {rel:.3e}: spherical area {sph_area:.6e} vs planar area x 4pi/(12F) = {K * pl_area:.6e} (probe size {size:.1e}, sector {sec})",
                           reqs[P * k: P * k + 3], str(impl[P * k: P * k + 3]))
-    run.rule = ("probe triangles (random orientation, size 1e-6..1e-3, not straddling a seam) in every sector of every face: 8% at 5e-8..3e-4 from the face centre with size 1/64..1/6 of that distance (small-angle branch of the inverse), 27% anywhere out to 1.3 x distance-to-edge, 25% on either side of the ten internal seams, "
+    run.rule = ("probe triangles (random orientation, size 1e-6..1e-3, not straddling a seam) in every sector of every face: 8% at 1e-10..3e-4 from the face centre with size 1/64..1/6 of that distance (small-angle branch of the inverse), 27% anywhere out to 1.3 x distance-to-edge, 25% on either side of the ten internal seams, "
                 "20% on either side of the face edge incl. the reflected margin, 10% at the face centre, 10% at the pentagon vertices; spherical area of the unprojected outline (12 points per edge, 60 when the first measurement exceeds 2e-5; tangent-plane shoelace) vs planar area x 4*pi/(12*F); "
                 "plus probe triangles inside the overhanging parts (beyond a face edge or corner) of real cells of r = 2..5 around all face corners and edge midpoints; non-trivial = distinct probes measured")
     run.samples = [{"request": reqs[3 * M * k], "impl": impl[3 * M * k]} for k in rng.sample(range(len(probes)), 4)]
